@@ -317,6 +317,10 @@ type Type struct {
 	Type            []*Type    `yang:"type"` // len > 1 only when Name is "union"
 
 	YangType *YangType
+
+	// resolveErrs are the errors found while YangType was built; resolve
+	// reports them again each time it is asked about this type.
+	resolveErrs []error
 }
 
 func (Type) Kind() string             { return "type" }
